@@ -176,6 +176,8 @@ def check_seq_line(op, line, i, flag):
             if pr.get(f"hist{v}:") != exp:
                 flag("history-wrong", "history-is-not-the-sorted-event-list", f"HistorySinceVersion({did},{v}) = {str(pr.get(f'hist{v}:'))[:80]} expected {exp[:80]}", i)
                 break
+        if "histneg:" in pr and not pr["histneg:"].startswith("err:other:negative"):
+            flag("history-wrong", "history-negative-version-answered", f"HistorySinceVersion({did}, negative) = {pr['histneg:'][:60]}", i)
         if ad is None:
             flag("latest-unresolvable", "latest-version-unresolvable", f"Resolve({did}, allowDeactivated) = {str(pr.get('ad:'))[:60]}", i)
             continue
@@ -333,13 +335,15 @@ def run(ctx):
     distinct = set()
     seq_of = {}          # line index -> index of the seq op it belongs to
     raw_n = 0
+    rfault_n = 0
     last_seq = None
     for i, line in enumerate(impl):
         op = json.loads(ops[i]) if i < len(ops) and ops[i] else {}
         kind = "again"
-        if op.get("op") == "raw":   # the literal shelves: order-dependent (intermediate merged documents stay behind)
+        if op.get("op") in ("raw", "rfault"):   # the literal shelves: order-dependent (intermediate merged documents stay behind); read faults
             seq_of[i] = last_seq
-            raw_n += 1
+            raw_n += op.get("op") == "raw"
+            rfault_n += line.count(":db") + line.count(":same") + line.count("=db") + line.count("=same") if op.get("op") == "rfault" else 0
             continue
         if op.get("op") == "seq":
             kind = "seq"
@@ -434,6 +438,13 @@ def run(ctx):
         if op.get("op") == "seq":
             check_seq_line(op, line, i, flag)
             full_of_seq[i] = parse_line(strip_add(line))
+        elif op.get("op") == "rfault":
+            # a storage error inside a read transaction must come back as an error: never an answer, never not-found
+            for tok in ("swallowed", "DIFF", "panic"):
+                if tok in line:
+                    mm = re.search(r"(\S*" + tok + ")", line)
+                    flag("read-fault", "read-storage-error-" + tok.lower(), f"a read entry point under a failing shelf Get: {mm.group(1) if mm else tok} ({line[:50]}..)", i)
+                    break
         elif op.get("op") == "raw":
             if seq_of.get(i) is not None:
                 check_raw_line(json.loads(ops[seq_of[i]]), impl[seq_of[i]], line, i, flag)
@@ -489,5 +500,6 @@ def run(ctx):
                        "Finder.Find(IsActive), HistorySinceVersion(0..n+1), unknown DID; then the cache-dependent part again after re-opening the store. "
                        "distinct_nontrivial = distinct (set, arrival, failure codes) with >=2 events")
     feats["raw-shelf-dumps"] = raw_n
+    feats["read-calls-under-a-failing-get"] = rfault_n
     ctx.cov["input_distribution"] = {"set_size_histogram": dict(sorted(sizes.items())), "features": dict(feats), "event_sets": len(by_set)}
     ctx.cov["samples"] = [json.loads(ops[0])["arrival"] if ops and ops[0] else [], impl[0][:400] if impl else ""]
